@@ -57,6 +57,72 @@ func TestVerifC17SM2(t *testing.T) {
 		sh.rID, sh.sID = ref.B32(m2.R), ref.B32(m2.S)
 		keys = append(keys, sh)
 	}
+	// RARE-PATH calls mixed into the stress (and run once before it): the first candidate is rejected late
+	// (r = 0, r + k = n, s = 0 through a solved digest) or early (k = 0, k >= n), the source fails in the
+	// middle of a redraw, the key is invalid. Whatever such a path leaves behind in package-level state
+	// (pools, caches, scratch) is what the ordinary concurrent calls would trip over.
+	type rare struct {
+		priv, e, stream []byte
+		wantR, wantS    []byte // nil: an error is expected
+		what            string
+	}
+	var rares []*rare
+	for i := 0; i < 12; i++ {
+		d := ref.Int(keys[i%len(keys)].priv.B)
+		k1 := randScalar(rng)
+		x1 := ref.BaseMulFast(k1).X
+		e := rng.Bytes(32)
+		first := ref.B32(k1)
+		what := ""
+		switch i % 6 {
+		case 0:
+			e, what = ref.B32(ref.ModN(new(big.Int).Neg(x1))), "late-rejection:r=0"
+		case 1:
+			e, what = ref.B32(ref.ModN(new(big.Int).Sub(new(big.Int).Sub(nI, k1), x1))), "late-rejection:r+k=n"
+		case 2:
+			rT := ref.ModN(new(big.Int).Mul(k1, ref.InvN(d)))
+			e, what = ref.B32(ref.ModN(new(big.Int).Sub(rT, x1))), "late-rejection:s=0"
+		case 3:
+			first, what = make([]byte, 32), "early-rejection:k=0"
+		case 4:
+			first, what = ref.B32(nI), "early-rejection:k=n"
+		default:
+			what = "source-fails-in-redraw"
+		}
+		stream := append(append([]byte{}, first...), ref.B32(randScalar(rng))...)
+		rc := &rare{priv: ref.B32(d), e: e, stream: stream, what: what}
+		if i%6 == 5 {
+			rc.e = ref.B32(ref.ModN(new(big.Int).Neg(x1))) // r = 0, then the source ends after 40 bytes
+			rc.stream = stream[:40]
+		} else {
+			m := ref.SM2Sign(d, e, stream)
+			if m.R == nil || len(m.Rejected) != 1 {
+				r.Inconclusive("c17: rare-path stream not rejected once by the model: " + what)
+				continue
+			}
+			rc.wantR, rc.wantS = ref.B32(m.R), ref.B32(m.S)
+		}
+		rares = append(rares, rc)
+	}
+	runRare := func(rc *rare) string {
+		rr, ss, err := SignHashed(newScript(rc.stream), rc.priv, rc.e)
+		if rc.wantR == nil {
+			if err == nil || rr != nil || ss != nil {
+				return "rare-path:" + rc.what + ":no-error"
+			}
+			return ""
+		}
+		if err != nil || !bytes.Equal(rr, rc.wantR) || !bytes.Equal(ss, rc.wantS) {
+			return "rare-path:" + rc.what
+		}
+		return ""
+	}
+	for _, rc := range rares {
+		if bad := runRare(rc); bad != "" {
+			r.Violation("serial-result-wrong:"+bad, hk.D{"priv": hk.Hex(rc.priv), "e": hk.Hex(rc.e), "stream": hk.Hex(rc.stream)})
+		}
+		SignHashed(newScript(rc.stream), make([]byte, 32), rc.e) // invalid key: error path
+	}
 	var maxInflight, overlapped, total int64
 	var inflight int64
 	rounds := hk.N(2, 8)
@@ -75,7 +141,7 @@ func TestVerifC17SM2(t *testing.T) {
 				<-start
 				for it := 0; it < iters; it++ {
 					sh := keys[lr.Intn(len(keys))]
-					kind := lr.Intn(8)
+					kind := lr.Intn(9)
 					n := atomic.AddInt64(&inflight, 1)
 					if n > 1 {
 						atomic.AddInt64(&overlapped, 1)
@@ -143,6 +209,10 @@ func TestVerifC17SM2(t *testing.T) {
 								if ok != ref.SM2Verify(sh.px.B, sh.py.B, e, ref.B32(rr), ref.B32(sv)) {
 									bad = "VerifyHashed-crafted"
 								}
+							}
+						case 8:
+							if len(rares) > 0 {
+								bad = runRare(rares[lr.Intn(len(rares))])
 							}
 						default:
 							// independent hash values used concurrently
